@@ -35,10 +35,23 @@ class Origins:
         self.fstrings: Dict[int, tuple] = {}
         self.node_of_ast: Dict[int, Node] = {}
         from .cfg import node_exprs
+        self.comp_bind: Dict[int, tuple] = {}       # id(Name load inside a comprehension) -> (generator, name)
+        self.comp_nodes: Dict[int, tuple] = {}      # id(comprehension) -> (node, CFG node id)
         for n in self.cfg.nodes:
             for e in node_exprs(n):
                 for sub in ast.walk(e):
                     self.node_of_ast.setdefault(id(sub), n)
+                    if isinstance(sub, (ast.ListComp, ast.GeneratorExp, ast.SetComp, ast.DictComp)):
+                        self.comp_nodes[id(sub)] = (sub, n.id)
+                        for gi, g in enumerate(sub.generators):
+                            names = {t.id for t in ast.walk(g.target) if isinstance(t, ast.Name)}
+                            scope_parts = [x for x in ([getattr(sub, "elt", None), getattr(sub, "key", None), getattr(sub, "value", None)] + list(g.ifs)) if x is not None]
+                            for later in sub.generators[gi + 1:]:
+                                scope_parts += [later.iter] + list(later.ifs)
+                            for part in scope_parts:
+                                for x in ast.walk(part):
+                                    if isinstance(x, ast.Name) and isinstance(x.ctx, ast.Load) and x.id in names:
+                                        self.comp_bind.setdefault(id(x), (g, x.id))
 
     def node_for(self, a: ast.AST) -> Node:
         n = self.node_of_ast.get(id(a))
@@ -58,6 +71,10 @@ class Origins:
             return ("expr", norm_text(e))
         if isinstance(e, ast.Constant):
             return ("const", e.value)
+        if isinstance(e, ast.Name) and id(e) in self.comp_bind:
+            g, nm = self.comp_bind[id(e)]
+            r = self._unpack(g.target, ("elem", self.of(nid, g.iter, depth + 1)), nm)      # bound by the comprehension: an element of what it iterates
+            return r if r is not None else ("expr", e.id)
         if isinstance(e, ast.Name):
             key = (nid, e.id)
             if key in self._memo:
@@ -99,6 +116,13 @@ class Origins:
                 base = self.of(nid, e.value, depth + 1)
                 if base[0] == "tuple" and isinstance(idx.value, int) and -len(base[1]) <= idx.value < len(base[1]):
                     return base[1][idx.value]
+                if base[0] == "dict":
+                    hit = [v for (k, v) in base[1] if k == ("const", idx.value)]
+                    if hit:
+                        return hit[-1]          # lookup of a constant key in a dict display: the value written there
+                if base[0] == "phi" and isinstance(idx.value, int) and all(x[0] == "tuple" and -len(x[1]) <= idx.value < len(x[1]) for x in base[1]):
+                    alts = {x[1][idx.value] for x in base[1]}
+                    return next(iter(alts)) if len(alts) == 1 else ("phi", frozenset(alts))
                 return ("item", base, idx.value)
             return ("index", self.of(nid, e.value, depth + 1), self.of(nid, idx, depth + 1))
         if isinstance(e, ast.Call):
@@ -123,7 +147,7 @@ class Origins:
             src = self.of(nid, g.iter, depth + 1)
             if isinstance(e.elt, ast.Name) and isinstance(g.target, ast.Name) and e.elt.id == g.target.id:
                 return ("filter", src, tuple(norm_text(c) for c in g.ifs))       # same elements, possibly fewer
-            return ("comp", src, norm_text(e.elt))
+            return ("comp", src, norm_text(e.elt), id(e))
         if isinstance(e, ast.BoolOp):
             return ("boolop", type(e.op).__name__, tuple(self.of(nid, v, depth + 1) for v in e.values))
         return ("expr", norm_text(e))
@@ -165,6 +189,9 @@ class Origins:
             for k, el in enumerate(target.elts):
                 if val[0] == "tuple" and len(val[1]) == len(target.elts):
                     sub = val[1][k]
+                elif val[0] == "phi" and all(x[0] == "tuple" and len(x[1]) == len(target.elts) for x in val[1]):
+                    alts = {x[1][k] for x in val[1]}          # unpacking a choice of tuples: the choice of their k-th items
+                    sub = next(iter(alts)) if len(alts) == 1 else ("phi", frozenset(alts))
                 elif val[0] == "call" and val[1] == "builtins.enumerate" and val[2]:
                     sub = ("enum_index",) if k == 0 else val[2][0]
                 elif val[0] == "elem" and val[1][0] == "call" and val[1][1] == "builtins.enumerate" and val[1][2]:
